@@ -1,4 +1,5 @@
 """C07 — liquidity / amount math: no over-spend, maximal, one-sided out of range, exact."""
+import pandas as pd
 from decimal import Decimal
 from fractions import Fraction
 
@@ -221,7 +222,43 @@ def st_market(draw):
     explicit = draw(st.sampled_from([False, True, "tick"]))
     part = draw(st.sampled_from([None, None, 1, 2, 3]))
     tk = draw(st.sampled_from(["tl", "tu", "tl+1", "tu-1", "mid", "0", "0", "-1", "1"]))
-    return {"tk": tk, "d0": d0, "d1": d1, "fee": fee, "tl": tl, "tu": tu, "rk": rk, "q": q, "pk": pk, "u": u, "v": v, "w0": str(w0), "w1": str(w1), "bal": bal_mode, "explicit": explicit, "part": part}
+    # ticks as a caller often has them (read from a data frame: numpy integers); a second pool of the same broker at
+    # another price, operated in the same bar (nothing of one market may leak into the other)
+    extra = {"ttype": draw(st.sampled_from(["int", "int", "int64"])), "companion": draw(st.sampled_from([None, None, "before", "between"])), "ctick": draw(st.integers(-300000, 300000))}
+    return {**extra, "tk": tk, "d0": d0, "d1": d1, "fee": fee, "tl": tl, "tu": tu, "rk": rk, "q": q, "pk": pk, "u": u, "v": v, "w0": str(w0), "w1": str(w1), "bal": bal_mode, "explicit": explicit, "part": part}
+
+
+def _companion(broker, case):
+    """A second pool of the same broker (own tokens, own price, same bar) that is operated at its default price
+    around the operations under test; its own round trip must be exact too."""
+    from demeter import MarketInfo, TokenInfo
+    from demeter.uniswap import UniLpMarket, UniswapMarketStatus, UniV3Pool
+
+    ta, tb = TokenInfo("TC18", 18), TokenInfo("TD6", 6)
+    pool = UniV3Pool(ta, tb, 0.3, tb)
+    m2 = UniLpMarket(MarketInfo("uni2"), pool)
+    broker.add_market(m2)
+    ct = case["ctick"]
+    m2.set_market_status(UniswapMarketStatus(timestamp=None, data=pd.Series(data=[0, 0, 10**18, ct, m2.tick_to_price(ct)], index=["inAmount0", "inAmount1", "currentLiquidity", "closeTick", "price"])), price=None)
+    broker.set_balance(ta, D(1000))
+    broker.set_balance(tb, D(1000))
+    lo, hi = (ct // 60) * 60 - 600, (ct // 60) * 60 + 600
+    state = {}
+
+    def step(what, ctx=None, info=None):
+        if what == "add":
+            b, q_ = m2._convert_pair(D(1000), D(1000))
+            state["pos"], bu, qu, state["liq"] = m2.add_liquidity_by_tick(lo, hi, b, q_)
+            state["used"] = m2._convert_pair(bu, qu)
+        elif what == "remove" and "pos" in state:
+            state["got"] = m2._convert_pair(*m2.remove_liquidity(state.pop("pos")))
+        elif what == "check":
+            if "pos" in state:
+                step("remove")
+            ctx.check(state["liq"] > 0 and state["used"][0] > 0 and state["used"][1] > 0, "market.companion", lambda: f"companion pool at tick {ct}, range [{lo}, {hi}]: in-range mint used {state['used']}, liquidity {state['liq']}", info)
+            ctx.check(state["got"] == state["used"], "market.companion", lambda: f"companion pool at tick {ct}: deposited {state['used']}, withdrew {state['got']} at the same price", info)
+
+    return step
 
 
 def body_market(case, ctx: Ctx):
@@ -247,11 +284,23 @@ def body_market(case, ctx: Ctx):
         add_kw = {"tick": tk}
         kw = {"sqrt_price_x96": s_eff}
     info = {**case, "s": str(s), "price": str(price)}
+    if case.get("ttype", "int") != "int":
+        import numpy as np
+
+        tl, tu = np.int64(tl), np.int64(tu)
+        if "tick" in add_kw:
+            add_kw["tick"] = np.int64(add_kw["tick"])
+    comp = _companion(broker, case) if case.get("companion") else None
+    if comp and case["companion"] == "before":
+        comp("add")
     try:
         pos, base_used, quote_used, liq = market.add_liquidity_by_tick(tl, tu, base_max, quote_max, **add_kw)
     except Exception as e:  # rejected (insufficient balance ...): atomicity is C04's business
         ctx.case(info, False, labels=[f"market.rejected.{type(e).__name__}"])
         return
+    tl, tu = int(tl), int(tu)
+    if comp:
+        comp("add" if case["companion"] == "between" else "remove")
     u0, u1 = market._convert_pair(base_used, quote_used)  # involution: base/quote -> token0/token1
     ctx.check(F(u0) <= F(a0) * (1 + TOL) and F(u1) <= F(a1) * (1 + TOL), "market.overspend", lambda: f"used {u0},{u1} > offered {a0},{a1}", info)
     ctx.check(u0 >= 0 and u1 >= 0 and liq >= 0, "market.negative", f"{u0},{u1},{liq}", info)
@@ -297,7 +346,9 @@ def body_market(case, ctx: Ctx):
         ctx.check(close(end1, F(b1), tol), "market.wallet_restore", lambda: f"token1 wallet {b1} -> {end1}", info)
     else:
         ctx.check(abs(F(end1) - F(b1)) <= Fraction(1, 10**5) * F(b1), "market.wallet_restore", lambda: f"token1 wallet {b1} -> {end1} (snap)", info)
-    ctx.case(info, True, labels=["market.roundtrip", f"market.q{int(q)}", f"market.{'tick' if case['explicit'] == 'tick' else 'explicit' if case['explicit'] else 'default'}", f"market.price.{case['pk']}", "market.partial" if part else "market.full"] + (["market.snap"] if snapped0 or snapped1 else []))
+    if comp:
+        comp("check", ctx, info)
+    ctx.case(info, True, labels=["market.roundtrip", f"market.ttype.{case.get('ttype', 'int')}", f"market.companion.{case.get('companion')}", f"market.q{int(q)}", f"market.{'tick' if case['explicit'] == 'tick' else 'explicit' if case['explicit'] else 'default'}", f"market.price.{case['pk']}", "market.partial" if part else "market.full"] + (["market.snap"] if snapped0 or snapped1 else []))
 
 
 BODIES = {"math": (st_math, body_math), "market": (st_market, body_market)}
